@@ -261,6 +261,30 @@ def events_cost(kind, x):
         return "EXC:" + type(e).__name__
 
 
+def _prime_serial(x):
+    """history independence: the same objects are serialised once while every node carries another name and
+    another colour, then names and colours are put back in place; what the package remembers from that first
+    serialisation must not leak into the one observed."""
+    inp = getattr(x, "input", x)
+    saved = []
+    for t in (inp.object_tree, inp.species_lca.tree):
+        for n in t.traverse():
+            saved.append((n, n.name, "color" in n.features, getattr(n, "color", None)))
+            n.name = (n.name or "") + "q"
+            n.add_feature("color", "tmp")
+    try:
+        x.to_dict()
+        repr(x)
+    except Exception:  # noqa: BLE001 - the priming serialisation is not judged
+        pass
+    for n, name, had, col in saved:
+        n.name = name
+        if had:
+            n.add_feature("color", col)
+        else:
+            n.del_feature("color")
+
+
 def impl(c):
     ete3, M, Y, LCA = _mods()
     from ete3.parser.newick import NewickError
@@ -269,6 +293,8 @@ def impl(c):
     cls = {"RI": M.ReconciliationInput, "SI": M.SuperReconciliationInput,
            "RO": M.ReconciliationOutput, "SO": M.SuperReconciliationOutput}[kind]
     x = make_object(c)
+    if len(json.dumps(c)) % 3 == 0:
+        _prime_serial(x)
     d = x.to_dict()
     res = {"dict": canon_dict(kind, d), "back": None, "redict": None, "flags": None, "error": None}
     d2 = json.loads(json.dumps(d))
